@@ -56,3 +56,66 @@ Definition sub_block (n : nat) (C : list R) (C3 : list R) (pi : nat -> nat) : Pr
 Definition condensed (n : nat) (C : list R) (C3 : list R) (pi : nat -> nat) (o : nat) (keep : nat -> bool) : Prop :=
   forall i j, (i < n)%nat -> (j < n)%nat ->
     el n C i j = if (keep i && keep j)%bool then el 6 C3 (pi i) (pi j) - el 6 C3 (pi i) o * el 6 C3 o (pi j) / el 6 C3 o o else 0.
+
+Definition id_map (k : nat) : nat := k.
+(* PIPE convention in 2D: the second and third material axes are exchanged, the in-plane shear is the (1,3) shear *)
+Definition pipe_map (k : nat) : nat := match k with 1 => 2 | 2 => 1 | 3 => 4 | _ => k end%nat.
+Definition keep2 (k : nat) : bool := negb (Nat.eqb k 2).
+
+(* ---- every (modelling hypothesis, axes convention, alteration) combination -------------------------------------------
+   Written from the documentation (OrthotropicAxesConvention.hxx, StiffnessTensor.hxx), not from the code.
+   The nine constants are always given in the 3D material frame.  Vector conventions of TFEL: 1D (rr, zz, tt), 2D (xx, yy, zz, xy),
+   3D (xx, yy, zz, xy, xz, yz); the 3D tensor carries 2 G12, 2 G13, 2 G23 on the shear diagonal (components 3, 4, 5). *)
+Inductive hyp := AGPStrain | AGPStress | Axis | PStress | PStrain | GPStrain | Tri.
+Inductive conv := Default | Pipe | Plate.
+Inductive alt := Unaltered | Altered.
+Definition all_hyps := [AGPStrain; AGPStress; Axis; PStress; PStrain; GPStrain; Tri].
+Definition all_convs := [Default; Pipe; Plate].
+Definition all_alts := [Unaltered; Altered].
+Definition hyp_code (h : hyp) : nat := match h with AGPStrain => 0 | AGPStress => 1 | Axis => 2 | PStress => 3 | PStrain => 4 | GPStrain => 5 | Tri => 6 end.
+Definition conv_code (c : conv) : nat := match c with Default => 0 | Pipe => 1 | Plate => 2 end.
+Definition alt_code (a : alt) : nat := match a with Unaltered => 0 | Altered => 1 end.
+(* size of the symmetric tensors of the hypothesis *)
+Definition hyp_size (h : hyp) : nat := match h with AGPStrain | AGPStress => 3 | Tri => 6 | _ => 4 end%nat.
+(* "PLATE can only be used in 3D, plane stress, plane strain and generalised plane strain"; DEFAULT and PIPE everywhere *)
+Definition documented (h : hyp) (c : conv) : bool :=
+  match c, h with Plate, (Tri | PStress | PStrain | GPStrain) => true | Plate, _ => false | _, _ => true end.
+(* PIPE: "in 2D plane stress, strain, generalised plane strain the second and third axes are exchanged compared to the 3D case";
+   DEFAULT does not differentiate the hypotheses; PLATE: the axes are those of the 3D case *)
+Definition exchanged (h : hyp) (c : conv) : bool :=
+  match c, h with Pipe, (PStress | PStrain | GPStrain) => true | _, _ => false end.
+Definition axes_map (h : hyp) (c : conv) : nat -> nat := if exchanged h c then pipe_map else id_map.
+(* ALTERED: "the effective stiffness tensor obtained by eliminating the effect of the axial strain", meaningful only for the
+   plane stress hypotheses; in every other case the UNALTERED tensor.  The component eliminated is the third one of the
+   reduced tensor (for the 1D hypothesis see NOTES.md). *)
+Definition is_condensed (h : hyp) (a : alt) : bool :=
+  match a, h with Altered, (PStress | AGPStress) => true | _, _ => false end.
+Definition reduces (h : hyp) (c : conv) (a : alt) (C C3 : list R) : Prop :=
+  if is_condensed h a then condensed (hyp_size h) C C3 (axes_map h c) (axes_map h c 2) keep2
+  else sub_block (hyp_size h) C C3 (axes_map h c).
+
+(* principal 2x2 minor of the compliance that excludes the normal axis o: the condensation on axis o is defined when it does not vanish *)
+Definition minor (E1 E2 E3 n12 n23 n13 : R) (o : nat) : R :=
+  let c := compliance E1 E2 E3 n12 n23 n13 in
+  match o with
+  | 0%nat => c 1%nat 1%nat * c 2%nat 2%nat - c 1%nat 2%nat * c 2%nat 1%nat
+  | 1%nat => c 0%nat 0%nat * c 2%nat 2%nat - c 0%nat 2%nat * c 2%nat 0%nat
+  | _ => c 0%nat 0%nat * c 1%nat 1%nat - c 0%nat 1%nat * c 1%nat 0%nat
+  end.
+Definition nondegenerate (E1 E2 E3 n12 n23 n13 : R) : Prop := E1 <> 0 /\ E2 <> 0 /\ E3 <> 0 /\ detS E1 E2 E3 n12 n23 n13 <> 0.
+
+(* one row of the table regenerated from the header: a provided combination and the function traced for it *)
+Definition ofun := R -> R -> R -> R -> R -> R -> R -> R -> R -> list R.
+Definition combo := (hyp * conv * alt * ofun)%type.
+Definition combo_key (e : combo) : nat * nat * nat := let '(h, c, a, _) := e in (hyp_code h, conv_code c, alt_code a).
+(* the tensor of the combination is the reduction of the 3D tensor ref3d (itself proved to be the inverse of the compliance) *)
+Definition combo_ok (ref3d : ofun) (e : combo) : Prop :=
+  let '(h, c, a, f) := e in
+  forall E1 E2 E3 n12 n23 n13 G12 G23 G13, nondegenerate E1 E2 E3 n12 n23 n13 ->
+    (is_condensed h a = true -> minor E1 E2 E3 n12 n23 n13 (axes_map h c 2) <> 0) ->
+    reduces h c a (f E1 E2 E3 n12 n23 n13 G12 G23 G13) (ref3d E1 E2 E3 n12 n23 n13 G12 G23 G13).
+(* every documented combination is present in a table of keys *)
+Definition keys_complete (keys : list (nat * nat * nat)) : bool :=
+  forallb (fun h => forallb (fun c => forallb (fun a =>
+    implb (documented h c) (existsb (fun k => let '(x, y, z) := k in (Nat.eqb x (hyp_code h) && Nat.eqb y (conv_code c) && Nat.eqb z (alt_code a))%bool) keys))
+    all_alts) all_convs) all_hyps.
